@@ -406,6 +406,78 @@ pub fn run(tier: &str) -> i32 {
     rep.finish()
 }
 
-pub fn replay(_v: &Value) -> Option<String> {
-    Some("C18 replays re-run the history sweep: ./check C18 quick reports the same site keys deterministically".into())
+fn comp_inputs() -> Vec<corpus::Input> {
+    let mut ins: Vec<corpus::Input> = vec![corpus::Input { name: "hello".into(), data: b"Hello zlib! Hello zlib!".to_vec() }];
+    ins.push(corpus::medium_inputs().remove(0));
+    ins.push(corpus::shape_named("R66000", &[(Seg::R, 66000)]));
+    ins.push(corpus::shape_named("T70000", &[(Seg::T, 70000)]));
+    ins
+}
+
+fn comp_probes() -> Vec<corpus::Input> {
+    vec![
+        corpus::Input { name: "probe:text".into(), data: b"Reset probe, reset probe, reset probe! 0123456789 0123456789".to_vec() },
+        corpus::Input { name: "probe:zeros300".into(), data: vec![0; 300] },
+        corpus::shape_named("probe:T5000", &[(Seg::T, 5000)]),
+        corpus::shape_named("probe:P7x40000+R30000", &[(Seg::P(7), 40000), (Seg::R, 30000)]),
+    ]
+}
+
+/// Replays one (history, reset, probe) tuple through the plain objects (no sweep).
+pub fn replay(v: &Value) -> Option<String> {
+    let calls_of = |v: &Value| -> Vec<(usize, usize, u8)> {
+        v.as_array().map(|a| a.iter().map(|c| (c[0].as_u64().unwrap_or(0) as usize, c[1].as_u64().unwrap_or(0) as usize, c[2].as_u64().unwrap_or(0) as u8)).collect()).unwrap_or_default()
+    };
+    let unlim = |x: u64| if x >= 1 << 40 { usize::MAX } else { x as usize };
+    match v["kind"].as_str()? {
+        "comp" | "comp-det" => {
+            let ins = comp_inputs();
+            let input = ins.into_iter().find(|i| Some(i.name.as_str()) == v["hist_input"].as_str())?;
+            let cfg = Cfg::from_json(&v["cfg"]);
+            let h = CHist { input: 0, calls: calls_of(&v["hist_calls"]) };
+            let probe = comp_probes().into_iter().find(|p| Some(p.name.as_str()) == v["probe"].as_str())?;
+            let (chunk, cap) = (unlim(v["chunk"].as_u64().unwrap_or(u64::MAX)), v["cap"].as_u64().unwrap_or(400_000) as usize);
+            let r = guarded(|| {
+                let mut used = cfg.make();
+                run_comp_history(&mut used, &input.data, &h);
+                used.reset();
+                let mut fresh = cfg.make();
+                comp_probe(&mut used, &probe.data, chunk, cap) == comp_probe(&mut fresh, &probe.data, chunk, cap)
+            });
+            match r {
+                Ok(true) => None,
+                Ok(false) => Some("probe output after history + reset() differs from a fresh compressor".into()),
+                Err(p) => Some(format!("panic {}", p)),
+            }
+        }
+        "inf" => {
+            let hs = crate::util::unhex(v["hist_stream_hex"].as_str()?);
+            let ps = crate::util::unhex(v["probe_hex"].as_str()?);
+            let hist_fmt = FMTS[v["hist_fmt"].as_u64()? as usize];
+            let h = IHist { stream: 0, fmt: 0, calls: calls_of(&v["hist_calls"]) };
+            let pf = if v["probe_zlib"].as_bool()? { DataFormat::Zlib } else { DataFormat::Raw };
+            let rname = v["reset"].as_str()?.to_string();
+            let keeps = rname == "MinReset" || rname == "ZeroReset";
+            let target = if keeps { hist_fmt } else { pf };
+            let (chunk, room, finish) = (unlim(v["chunk"].as_u64()?), v["room"].as_u64()? as usize, v["finish"].as_bool()?);
+            let r = guarded(|| {
+                let mut used = InflateState::new_boxed(hist_fmt);
+                run_inf_history(&mut used, &hs, &h);
+                match rname.as_str() {
+                    "MinReset" => used.reset_as(MinReset),
+                    "ZeroReset" => used.reset_as(ZeroReset),
+                    "FullReset" => used.reset_as(FullReset(target)),
+                    _ => used.reset(target),
+                }
+                let mut fresh = InflateState::new_boxed(target);
+                inf_probe(&mut used, &ps, chunk, room, finish) == inf_probe(&mut fresh, &ps, chunk, room, finish)
+            });
+            match r {
+                Ok(true) => None,
+                Ok(false) => Some(format!("decoding the probe after history + {} differs from a fresh InflateState", rname)),
+                Err(p) => Some(format!("panic {}", p)),
+            }
+        }
+        _ => Some("this C18 case kind is replayed by re-running the sweep: ./check C18 quick reports the same site keys deterministically".into()),
+    }
 }
